@@ -105,7 +105,16 @@ func NewComponents(spec specification.Components, cfg Config) (zero Components, 
 
 		resp := r.V.Value()
 
-		response, ims, err := NewResponse(OperationName(r.Name), "", resp, cs, cfg)
+		// an alias shares the types of its target (through a chain of aliases: of the component that holds the
+		// definition); the types its body needs are declared by that component only
+		typesOf := r.Name
+		var typesIn Componenter = cs
+		for ref, n := r.V.Ref(), 0; ref != nil && n < 64; ref, n = ref.V.Ref(), n+1 {
+			typesOf = ref.Name
+			typesIn = undeclaredComponenter{cs}
+		}
+
+		response, ims, err := NewResponse(OperationName(typesOf), "", resp, typesIn, cfg)
 		if err != nil {
 			return zero, nil, fmt.Errorf("new %q response: %w", r.Name, err)
 		}
@@ -131,12 +140,6 @@ func NewComponents(spec specification.Components, cfg Config) (zero Components, 
 			})
 		}
 
-		// an alias shares the types of its target (its inline body type is declared by the target only)
-		typesOf := r.Name
-		for ref, n := r.V.Ref(), 0; ref != nil && n < 64; ref, n = ref.V.Ref(), n+1 {
-			// (through a chain of aliases: the component that holds the definition)
-			typesOf = ref.Name
-		}
 		hr := NewHandlerResponse(response, OperationName(typesOf), status, cs, cfg, ifaces...)
 
 		if _, ok := hr.ContentJSON.Get(); ok {
@@ -178,6 +181,16 @@ func (c *Components) AddSchema(name string, s Schema, cfg Config) *SchemaCompone
 	sc := NewSchemaComponent(name, s, c, cfg)
 	c.Schemas = append(c.Schemas, &sc)
 	return c.Schemas[len(c.Schemas)-1]
+}
+
+// undeclaredComponenter names the types a schema needs without declaring them.
+type undeclaredComponenter struct {
+	Componenter
+}
+
+func (u undeclaredComponenter) AddSchema(name string, s Schema, cfg Config) *SchemaComponent {
+	sc := NewSchemaComponent(name, s, u, cfg)
+	return &sc
 }
 
 type NamedComponenter struct {
